@@ -89,6 +89,7 @@ CONCUR_MON = {
     'C04': ('C04_ErrorsNoEffect',),
     'C09': ('C09_FinalForest',),
     'C12': ('C12_FinalConsumers',),
+    'C11': ('C11_FinalViewsAgree', 'Escaped'),
 }
 
 FAULT = {
@@ -309,6 +310,15 @@ def run_seq(prop, tier, seed, model=True):
         extra_cov['name_probes_judged'] = nn
         extra_cov['name_probe_histogram'] = dict(sorted(name_hist.items()))
         extra_cov['name_probe_observations_outside_C19'] = nobs
+    if prop == 'C11':
+        # "the per-consumer and per-provider views of allocations agree" also after racing writes
+        n3 = 0
+        for ck in ('C07', 'C06'):
+            v2, k2, n2 = concur_supplement('C11', ck, tier, seed)
+            violations.extend(v2)
+            known.extend(k2)
+            n3 += n2
+        extra_cov['interleavings_checked_for_agreeing_views'] = n3
     if prop == 'C10':
         # generations never decrease: also on every commit of racing requests
         n2 = 0
